@@ -676,17 +676,14 @@ impl Printer<'_> {
                 });
                 if let Some(v) = v {
                     self.w(" ");
-                    let safe_start = matches!(
-                        v.k,
-                        EK::Path(..) | EK::Call(..) | EK::Host(..) | EK::ListLit(_) | EK::Lit(Lit::Bool(_))
-                            | EK::Lit(Lit::Str(_)) | EK::Paren(_)
-                    ) || matches!(&v.k, EK::Lit(Lit::Int{hex: false, ..}));
-                    if safe_start && !matches!(v.k, EK::Bin(..)) {
-                        self.expr(v, 0);
-                    } else {
+                    // `return <expr>` for every expression (the documentation gives no
+                    // restriction); now and then in redundant parentheses
+                    if self.flip(1, 5) {
                         self.w("(");
                         self.expr(v, 0);
                         self.w(")");
+                    } else {
+                        self.expr(v, 0);
                     }
                 }
             }
